@@ -24,6 +24,11 @@ def relational_to_piecewise(expr: sp.Expr) -> sp.Piecewise:
             (1, expr),
             (0, True),
         )
+    # A relation that sympy has already decided, e.g. Gt(x, x)
+    if expr is sp.true:
+        return sp.Integer(1)
+    if expr is sp.false:
+        return sp.Integer(0)
     return expr
 
 
@@ -92,6 +97,7 @@ def unary_op(op: str, arg):
     sp.Expr
         The result of the operation
     """
+    arg = relational_to_piecewise(arg)
     if op == "-":
         return sp.Mul(sp.Integer(-1), arg, evaluate=False)
     if op == "+":
